@@ -151,7 +151,7 @@ HostShapes == {"a", "b", "none", "ab", "ba", "aa"}
 H1Syntax == {"obsfold", "barelf", "nul", "cr", "spcolon"}
 H1Cl == {"cl:5", "cl:3", "cl:plus", "cl:hex", "cl:empty", "cl:listeq", "cl:listne"}
 H1Te == {"te:chunked", "te:gzip", "te:chunked,identity", "te:gzip,chunked", "te:xchunked", "te:junk"}
-H1Tok == H1Syntax \cup H1Cl \cup H1Te \cup {"badname", "conn:close", "conn:keepalive"}
+H1Tok == H1Syntax \cup H1Cl \cup H1Te \cup {"badname", "conn:close", "conn:keepalive", "cookie"}
 \* trframing: trailer section carrying Content-Length / Host (RFC 9110 6.5.1: never used for framing or routing)
 ChunkShapes == {"valid", "trailers", "trframing", "badsize", "ext", "lf"}
 
@@ -242,7 +242,7 @@ PS == {"ok", "auth:b", "noauth", "nomethod", "nopath", "noscheme", "dup:path", "
 H2Bad == {"upper", "badname", "val:cr", "val:lf", "val:nul", "te:gzip",
           "cs:connection", "cs:keep-alive", "cs:proxy-connection", "cs:transfer-encoding", "cs:upgrade"}
 H2Cl == {"cl:5", "cl:3", "cl:plus", "cl:sp", "cl:empty", "cl:list"}
-H2Tok == H2Bad \cup H2Cl \cup {"host:a", "host:b", "te:trailers", "plain"}
+H2Tok == H2Bad \cup H2Cl \cup {"host:a", "host:b", "te:trailers", "plain", "cookie"}
 DataShapes == {"es", "d5", "d3", "d6", "d5+1"}
 \* framing: trailer block carrying content-length / host (forwarded as trailer fields, never used for framing or routing)
 TrShapes == {"none", "plain", "ident", "framing", "pseudo", "cs", "badval", "noes"}
